@@ -818,7 +818,7 @@ def closure_call(ctx, args, st):
     return ctx.ex.call_value(f, items, st, ctx.depth + 1)
 
 
-@model(r'^(?:std|alloc|core)::slice::<impl \[.*\]>::sort_by::<')
+@model(r'^(?:std|alloc|core)::slice::<impl \[.*\]>::(sort_by|sort_unstable_by)::<')
 def slice_sort_by(ctx, args, st):
     """std's stable sort for slices of at most 20 elements is insertion_sort_shift_left(v, 1, is_less) with
     is_less(a, b) = compare(a, b) == Less: element i is moved left while it is less than its left neighbour.
@@ -826,6 +826,9 @@ def slice_sort_by(ctx, args, st):
     r = vec_ref(st, args[0]); v = st.deref(r)
     n = len(v.items)
     if n > 20: raise BoundHit('sort_by on more than 20 elements (std switches algorithm)')
+    if 'sort_unstable_by' in ctx.callee:
+        # same small-slice algorithm, but std promises no stability: the obligation is told, so that it can ask for a long-array confirmation
+        st.env['unstable_sort'] = st.env.get('unstable_sort', 0) + 1
     cmp = args[1]
     def is_less(s_, a, b):
         for s2, kind, val in ctx.ex.call_value(cmp, [s_.ref(a), s_.ref(b)], s_, ctx.depth + 1):
@@ -867,3 +870,23 @@ def result_option_clone(ctx, args, st):
     t = st.deref(v) if isinstance(v, Ref) else v
     if not (isinstance(t, Adt) and t.ty in ('Result', 'Option')): raise Unsupported(f'clone of {t!r}')
     return ret(st, t)
+
+
+@model(r'^(?:std::cmp::|core::cmp::)?Ordering::(then_with|then|reverse)(?:::<.*>)?$')
+def ordering_combinators(ctx, args, st):
+    o = args[0]
+    if not (isinstance(o, Adt) and o.ty == 'Ordering'): raise Unsupported(f'Ordering method on {o!r}')
+    m = re.search(r'Ordering::(\w+)', ctx.callee).group(1)
+    if m == 'reverse':
+        return ret(st, Adt('Ordering', {'Less': 'Greater', 'Greater': 'Less', 'Equal': 'Equal'}[o.variant], []))
+    if o.variant != 'Equal': return ret(st, o)
+    if m == 'then': return ret(st, args[1])
+    return ctx.ex.call_value(args[1], [], st, ctx.depth + 1)
+
+
+@model(r'^<(?:std::option::)?Option<(?:std::cmp::)?Ordering> as PartialEq>::(eq|ne)$')
+def option_ordering_eq(ctx, args, st):
+    a, b = st.deref_all(args[0]), st.deref_all(args[1])
+    def key(x): return (x.variant, x.items[0].variant if x.variant == 'Some' else None)
+    same = key(a) == key(b)
+    return ret(st, Bool(same if ctx.callee.endswith('eq') else not same))
